@@ -163,7 +163,7 @@ def meta_triple_scenarios(rng, n, mode="th"):
 # ---------------------------------------------------------------- shard driver
 
 def run_scenarios(scn_jsons, bound, n_random, pct, sub_seed, symptoms, budget=None, extra_judge=None,
-                  observer_factory=None, normalise=None):
+                  observer_factory=None, normalise=None, n_line=0, skip_dfs=False):
     """Explore every scenario; report the symptoms listed in `symptoms` (others -> foreign)."""
     res = ShardResult()
     rng = random.Random(sub_seed)
@@ -176,10 +176,19 @@ def run_scenarios(scn_jsons, bound, n_random, pct, sub_seed, symptoms, budget=No
             runner = C.ScenarioRunner(scn, scratch, observer_factory=observer_factory)
             res.count("scenarios")
             sample_done = False
-            for ob, probs, new in C.explore(runner, bound, budget=budget, rng=rng, n_random=n_random, pct=pct, normalise=normalise):
+            import itertools as _it
+            streams = []
+            if not skip_dfs:
+                streams.append(C.explore(runner, bound, budget=budget, rng=rng, n_random=n_random, pct=pct, normalise=normalise))
+            if n_line:
+                streams.append(C.explore_line_level(runner, rng, n_line, normalise=normalise))
+            for ob, probs, new in _it.chain(*streams):
                 res.evaluations += 1
                 res.count("schedules")
                 res.count("yield_points", ob.yield_points)
+                if ob.line_points:
+                    res.count("statement_level_yield_points", ob.line_points)
+                    res.count("statement_level_schedules")
                 res.count("reader_observations", sum(1 for o in scn.calls if o["op"] in ("rmeta", "retrieve")))
                 if new:
                     res.distinct.add(str(hash((scn.name, tuple(ob.trace)))))
